@@ -269,6 +269,77 @@ fn policy_case(rep: &mut Report, args: &Args, case: u64) {
     prog::uninstall(&c.programs);
 }
 
+/// Interpreter lane: one hand-sized tick (4 nodes in 3 shards, 3 programs, no
+/// random graph construction) — serial, every 2-worker assignment (2^3), and a
+/// few racing runs. Miri checks the scoped-thread work queue, the claim counter
+/// and the per-worker deltas for data races and undefined behaviour.
+fn miri_lane(args: &Args, mut rep: Report) -> i32 {
+    use crate::model::{AInst, AState, AVal};
+    use crate::prog::{Mop, Program};
+    use warp_core::{NodeId, NodeKey, WarpId};
+    let w = WarpId([7; 32]);
+    let node = |shard: u8| {
+        let mut h = [shard; 32];
+        h[31] = 0xA1;
+        NodeId(h)
+    };
+    let nt = crate::gen::node_types();
+    let at = crate::gen::atom_types();
+    let mut st = AState::default();
+    st.insts.insert(w, AInst { root: node(1), parent: None });
+    for s in 1..=4u8 {
+        st.nodes.insert((w, node(s)), nt[0]);
+    }
+    st.natt.insert((w, node(2)), AVal::Atom(at[0], vec![1, 2, 3]));
+    let Ok(pre) = st.build(0) else {
+        println!("HARNESS-ERROR miri lane: build failed");
+        return 2;
+    };
+    let mut programs = Vec::new();
+    for (i, s) in [1u8, 2, 3].iter().enumerate() {
+        let mut p = Program {
+            slot: i,
+            warp: w,
+            scope: node(*s),
+            salt: 99 + i as u64,
+            ops: vec![Mop::ReadNodeAtt(node(2)), Mop::SetNodeAtt { node: node(*s + 1), ty: at[1], len: 8 }],
+            footprint: warp_core::Footprint::default(),
+            matches: true,
+        };
+        if i == 0 {
+            // program 0 writes node(2)'s attachment which 1 and 2 read => they are rejected
+            // unless they do not read it; keep program 0 independent instead
+            p.ops = vec![Mop::ReadNode(node(1)), Mop::SetNodeAtt { node: node(1), ty: at[1], len: 8 }];
+        } else {
+            p.ops = vec![Mop::ReadNode(node(*s)), Mop::SetNodeAtt { node: node(*s + 1), ty: at[1], len: 8 }];
+        }
+        p.footprint = p.honest_footprint();
+        programs.push(p);
+    }
+    let c = Case { graph: crate::gen::GenGraph { state: st, root: NodeKey { warp_id: w, local_id: node(1) }, descent: std::collections::BTreeMap::new() }, programs, pre, class: "miri" };
+    let replay = json!({"mode": "miri"});
+    prog::install(&c.programs);
+    let Some(want) = serial_tuple(&c) else {
+        println!("HARNESS-ERROR miri lane: serial tick failed");
+        return 2;
+    };
+    for a in 0..8u128 {
+        if let Some(r) = run_and_compare(&mut rep, &c, &want, 2, Mode::AssignmentIndex(a), "scripted-assignment", &replay) {
+            rep.observe("assignments_seen", &assignment_key(&r));
+            rep.count("scripted_assignments_run", 1);
+            rep.nontrivial(assignment_key(&r).as_bytes());
+        }
+    }
+    for i in 0..3u64 {
+        if let Some(r) = run_and_compare(&mut rep, &c, &want, 3, Mode::Jitter(args.seed + i), "racing-threads", &replay) {
+            rep.count("racing_runs", 1);
+            rep.nontrivial(assignment_key(&r).as_bytes());
+        }
+    }
+    prog::uninstall(&c.programs);
+    rep.finish(2)
+}
+
 pub fn replay(args: &Args, path: &std::path::Path, mut rep: Report) -> i32 {
     let Ok(text) = std::fs::read_to_string(path) else { println!("HARNESS-ERROR cannot read replay"); return 2 };
     let Ok(v) = serde_json::from_str::<Value>(&text) else { println!("HARNESS-ERROR bad replay json"); return 2 };
@@ -298,20 +369,7 @@ pub fn run(args: &Args) -> i32 {
     // sanitizer lanes run a reduced workload (5-20x slower)
     let slow = !lane.is_empty();
     if lane == "miri" {
-        // interpreter lane: a handful of tiny ticks is all that fits
-        let mut case = 0u64;
-        let mut done = 0;
-        while done < 1 && case < 40 {
-            let before = rep.evaluations();
-            exhaustive_case(&mut rep, args, case, 3);
-            if rep.evaluations() - before > 5 {
-                done += 1;
-            }
-            case += 1;
-        }
-        large_case(&mut rep, args, 0, SizeClass::Small, 1, 3);
-        policy_case(&mut rep, args, 1);
-        return rep.finish(2);
+        return miri_lane(args, rep);
     }
     let n_exh = if slow { 2 } else { args.by_tier(6u64, 60) };
     let max_units = if slow { 4 } else { args.by_tier(5usize, 6) };
